@@ -839,7 +839,14 @@ def run_harness(harness, tier="quick", seed=0, replay=None, verbose=True):
     violations, known_hits, unreproduced = [], [], []
     n_margin_retries = 0
     os.makedirs(os.path.join(VERIF, "replays"), exist_ok=True)
+    # replay order: candidates that match no open known finding first; stop once enough are confirmed
+    sat_obls.sort(key=lambda ro: 0 if match_known(findings, pid, ro[1].case, ro[1].name) is None else 1)
+    confirmed_unlisted, confirmed_known, skipped_replays = 0, {}, 0
     for (r, o) in sat_obls:
+        k0 = match_known(findings, pid, o.case, o.name)
+        if (k0 is None and confirmed_unlisted >= 8) or (k0 is not None and confirmed_known.get(k0["id"], 0) >= 2):
+            skipped_replays += 1
+            continue
         vals = _HUNT_VALS.pop(id(o), None)
         if vals is None:
             vals = model_to_valuation(o.result.model or {}, r)
@@ -868,8 +875,10 @@ def run_harness(harness, tier="quick", seed=0, replay=None, verbose=True):
             k = match_known(findings, pid, o.case, o.name)
             if k is not None:
                 known_hits.append((k, o, path))
+                confirmed_known[k["id"]] = confirmed_known.get(k["id"], 0) + 1
             else:
                 violations.append((o, path, info))
+                confirmed_unlisted += 1
         else:
             unreproduced.append((o, info))
 
@@ -948,6 +957,7 @@ def run_harness(harness, tier="quick", seed=0, replay=None, verbose=True):
             explore_wall_s=round(t_explore, 2),
             queries=len(results),
             found_by_specialisation=hunted,
+            sat_not_replayed_after_enough_confirmed=skipped_replays,
             translator_validation=dict(points=tv["points"], terms_compared=tv["validated"], mismatches=len(tv["mismatches"])),
             problems=problems,
             exit_code=code,
